@@ -159,6 +159,7 @@ pub fn run_e7(spec: &ShardSpec, cur: Option<&str>) -> Outcome {
     // head-room probe (a pending resize must keep its head-room through a shrink at any size)
     let shrink_frac: u32 = spec.extra.get("shrink_frac").and_then(|s| s.parse().ok()).unwrap_or(0);
     let mut next_remove: u32 = 0;
+    let mut iters: u64 = 0;
     // at every resize start: a reserve / try_reserve / shrink_to with a boundary argument (rotating),
     // then the head-room probe (C10 at scale)
     let reserve_mode = spec.extra.get("reserve_at_resize").map_or(false, |s| s == "1");
@@ -200,7 +201,8 @@ pub fn run_e7(spec: &ShardSpec, cur: Option<&str>) -> Outcome {
         }
     };
     'grow: while w.r.len() < spec.n && (k as usize) < 4 * spec.n.max(64) {
-        if k % 4096 == 0 {
+        iters += 1;
+        if iters % 1024 == 1 {
             curf.put(&[Op::arg(OpK::ExtendFresh, k as u64)], None);
             PROGRESS.fetch_add(1, std::sync::atomic::Ordering::Relaxed);
             if t0.elapsed().as_secs_f64() > spec.max_secs {
